@@ -32,6 +32,15 @@ CHECKS = {
         "outside": "concurrent enqueue/check-in (two-thread harness not built in this revision); service Get path",
         "min_completed": 3,
     },
+    "C09": {
+        "groups": [
+            {"pkg": "Havoc/cmd/server", "with": ["Havoc/pkg/agent", "Havoc/pkg/logr", "Havoc/pkg/common/crypt"], "entries": ["H_c09_died", "H_c09_markdead"]},
+            {"pkg": "Havoc/cmd/server", "with": ["Havoc/pkg/agent", "Havoc/pkg/logr", "Havoc/pkg/common/crypt"], "entries": ["H_c09_event"], "shards": 4},
+        ],
+        "bounds": "all forests over 3 registered agents (parent vector), victim any of them; Died/UnlinkFromAll/LinkRemove and the operator mark-dead/alive event.",
+        "outside": "SQLite itself (TS_Links is a set-of-pairs model of the statements in pkg/db/links.go); more than 3 agents",
+        "min_completed": 3,
+    },
     "C08": {
         "groups": [
             {"pkg": "Havoc/pkg/agent", "with": ["Havoc/pkg/logr"], "entries": ["H_c08_chain"], "flags": ["-tags", "uf_aes"], "shards": 3},
@@ -77,6 +86,8 @@ LEVELS = {
     },
     "C05": {"text": "Bounded symbolic execution of the real TaskDispatch gate for every command id with symbolic request ids and bodies against an effect recorder; the negative statement (nothing happens for a non-outstanding id) is decided by the solver for all ids and bodies in the bound.",
             "note": "Trusted: go/ssa, gosx, z3; recorder TeamServer, os/net effect stubs; single-package command table transcribed from Command.c."},
+    "C09": {"text": "Bounded symbolic execution of the real link bookkeeping (cmd/server Died/UnlinkFromAll/LinkAdd/LinkRemove, TaskDispatch SMB connect/disconnect) from every forest over a 3-agent universe; the forest invariant relating parent pointers, link lists and link rows is asserted after one event (inductive step).",
+            "note": "Database = relational model of the four SQL statements in pkg/db/links.go; websocket/JSON stubbed."},
     "C08": {"text": "Bounded symbolic execution of the real PivotAddJob/BuildPayloadMessage wrapping for chains of 1..3 hops, unwrapped by a reference implementation of the Demon's pipe framing with each hop's own key; AES-CTR is an uninterpreted key stream so a layer encrypted under the wrong key cannot decode.",
             "note": "Trusted: go/ssa, gosx, z3 (QF_UFBV), the reference decoder transcribed from Command.c/TransportSmb.c."},
     "C04": {"text": "Bounded symbolic execution of GetQueuedJobs/AddJobToQueue/UploadMemFileInChunks against a FIFO reference; sizes are symbolic so the 30 MB boundary and chunk boundaries are decided by the solver, not sampled.",
